@@ -21,11 +21,17 @@ type Case struct {
 	Knobs    Knobs          `json:"knobs,omitempty"`
 
 	// what the worker has to hand back besides the verdict
-	WantOutputs bool `json:"want_outputs,omitempty"` // the workload's output buffers
-	WantBuffers bool `json:"want_buffers,omitempty"` // every live device buffer
-	WantPCs     bool `json:"want_pcs,omitempty"`     // per-wavefront executed PCs
-	SkipVerify  bool `json:"skip_verify,omitempty"`
-	IsRef       bool `json:"is_ref,omitempty"` // a reference run other cases are compared with: scheduled first
+	WantOutputs  bool `json:"want_outputs,omitempty"` // the workload's output buffers
+	WantBuffers  bool `json:"want_buffers,omitempty"` // every live device buffer
+	WantPCs      bool `json:"want_pcs,omitempty"`     // per-wavefront executed PCs
+	SkipVerify   bool `json:"skip_verify,omitempty"`
+	WantCmds     bool `json:"want_cmds,omitempty"`     // per driver command: kind, simulated start and end time (driver tracing hook)
+	WantCounters bool `json:"want_counters,omitempty"` // task / step counts and busy times of the components the runner reports on
+	IsRef        bool `json:"is_ref,omitempty"`        // a reference run other cases are compared with: scheduled first
+
+	// Env is extra environment for the worker process (e.g. GOMAXPROCS=16); it
+	// overrides the defaults Exec sets. Not part of Name().
+	Env []string `json:"env,omitempty"`
 }
 
 func (c Case) paramString() string {
@@ -99,6 +105,24 @@ type Result struct {
 	Wfs       []WfTrace
 	InstCount int
 	NumCUs    int
+	// new fields only below (gob: older readers ignore them)
+	Cmds     []CmdTime // WantCmds: every driver command in start order
+	Counters []Counter // WantCounters: sorted by name
+}
+
+// CmdTime is one driver command: its kind (Go type of the command) and the
+// simulated times at which the driver started and completed it (End < 0: never
+// completed).
+type CmdTime struct {
+	Kind       string
+	Start, End float64
+}
+
+// Counter is one named count (tasks, steps) or accumulated simulated time.
+type Counter struct {
+	Name  string
+	Value float64
+	Time  bool // Value is a sum of simulated durations in seconds (compared with a tolerance)
 }
 
 // Outcome is the parent's view of one executed case.
